@@ -353,7 +353,8 @@ def run(ctx):
                         # all evaluable guards hold for every mapped key and nothing else guards the look-up → fine; otherwise undecidable
                         if verdict[0] == "undecidable":
                             r2.undecidable("reached", verdict[1], site_of(b, verdict[2]))
-    r2.floor(8, "from, 2 display arms, lookup format, 2 decode fields, plumbing, reached")
+    common.value_reaches_processor(r2, prog)
+    r2.floor(9, "from, 2 display arms, lookup format, 2 decode fields, plumbing, reached, processed")
 
     # ---------------- R3 inert cases
     r3 = chk.rule("C04.R3", "empty / missing / numpad-off assignments yield no value, and no value writes nothing",
